@@ -27,7 +27,7 @@ WL = ['w']      # label of the weights column in the current comparison (a colum
 
 def replicate(df, wcol=None):
     wcol = WL[0] if wcol is None else wcol
-    rep = df.loc[df.index.repeat(df[wcol].astype(int))].drop(columns=[wcol]).reset_index(drop=True)
+    rep = df.iloc[np.repeat(np.arange(len(df)), df[wcol].astype(int).to_numpy())].drop(columns=[wcol]).reset_index(drop=True)     # by position: labels may repeat or be NaN
     return rep
 
 
